@@ -78,6 +78,7 @@ structure CbCall where
   seqEnter : Nat
   seqExit : Nat
   tEnter : Nat
+  tExit : Nat := 0
 deriving Inhabited, Repr
 
 /-- callbacks of a peer in order of entry; each enter is paired with the next exit of the same
@@ -91,7 +92,8 @@ def callbacksOf (evs : List Ev) (peer : String) : List CbCall :=
         let ex := rest.find? fun x => x.ev == "cb.exit" && x.arg 0 == e.arg 0 && x.arg 1 == e.arg 1
         { name := e.arg 0, gid := e.arg 1, enterArgs := e.args.drop 2,
           exitArgs := (ex.map (·.args.drop 2)).getD ["<no-exit>"],
-          seqEnter := e.seq, seqExit := (ex.map (·.seq)).getD 1000000000, tEnter := e.t } :: go rest
+          seqEnter := e.seq, seqExit := (ex.map (·.seq)).getD 1000000000, tEnter := e.t,
+          tExit := (ex.map (·.t)).getD e.t } :: go rest
       else go rest
   go mine
 
@@ -397,7 +399,13 @@ def monitorHold (cfg : SessCfg) (c : ConnInfo) (cbs : List CbCall) (tObsEnd : Na
         -- read says nothing about when corebgp sent)
         -- (and while the backlog drains afterwards the read times say nothing either: from a pause on, not judged)
         let blind := c.pauses.any fun (a, _) => a < t
-        if t > prev + limit && !blind then
+        -- (the FSM goroutine, which sends the KEEPALIVEs, is the one that runs the application's callbacks: the time
+        -- the application keeps it inside OnEstablished / the UPDATE handler is not corebgp's)
+        let busy := cbs.foldl (fun acc cb =>
+          let a := max cb.tEnter prev
+          let b := min cb.tExit t
+          if cb.name != "OnClose" && b > a then acc + (b - a) else acc) 0
+        if t > prev + limit + busy && !blind then
           fails := fails ++ [s!"C06 {(t - prev) / ms} ms passed without corebgp sending a KEEPALIVE or UPDATE (hold time {hold} s: at most about one third)"]
         prev := max prev t
     return fails
